@@ -686,7 +686,7 @@ pub fn prop_handler(c: &HandlerCase) -> CaseResult {
     use crate::udpdrv::*;
     use crate::wsdrv::*;
     let mut out = Outcome::default();
-    let r = match c {
+    let r = measure(|| match c {
         HandlerCase::Udp { max_response_peers, numwant, left, port, swarm, scrape_hashes } => {
             let mut ops: Vec<UdpOp> = (0..*swarm)
                 .map(|i| UdpOp::Announce { t: 0, fam: 0, ip: (i % 200) as u8, port: (i / 200) as u8, pid: 0, event: 2, left: (i % 2) as i64, numwant: 1, ttl: 10, req_ip: [0; 4], tid: 0 })
@@ -719,10 +719,26 @@ pub fn prop_handler(c: &HandlerCase) -> CaseResult {
             let case = WsCase { max_offers: *max_offers, max_scrape_torrents: *max_scrape, max_peer_age: 10, max_offer_age: 10, rng_seed: 1, access_mode: 0, ops };
             run_ws_case(&case, WsOracles::default())
         }
-    };
+    });
+    let r = (r.0, r.1);
+    let (r, allocated) = r;
     match r {
         Ok(o) => {
-            out.checks += o.checks;
+            out.checks += o.checks + 1;
+            // coarse allocation bound for request handling: the whole history (harness model
+            // included) may allocate 8 MiB plus 1 KiB per byte of request payload
+            let request_bytes: u64 = match c {
+                HandlerCase::Udp { swarm, scrape_hashes, .. } => 98 * (*swarm as u64 + 1) + 20 * *scrape_hashes as u64,
+                HandlerCase::Http { swarm, scrape_hashes, .. } => 200 * (*swarm as u64 + 1) + 30 * *scrape_hashes as u64,
+                HandlerCase::Ws { offers, swarm, scrape_hashes, .. } => 200 * (*swarm as u64 + 1) + 80 * *offers as u64 + 24 * *scrape_hashes as u64,
+            };
+            let bound = 8 * 1024 * 1024 + 1024 * request_bytes;
+            vensure!(
+                allocated <= bound,
+                "handler-allocation-bound",
+                "request handling allocated {allocated} bytes for about {request_bytes} bytes of requests (bound {bound}): {:?}",
+                c
+            );
             out.nontrivial = true;
             out.label("handled");
             Ok(out)
@@ -743,14 +759,14 @@ fn handler_cases() -> Vec<HandlerCase> {
         }
         for numwant in [None, Some(0), Some(1), Some(u64::MAX)] {
             for left in [0u64, 1, u64::MAX] {
-                for (swarm, scrape, max_scrape) in [(0u16, 0u16, 0usize), (1, 1, 1), (5, 10_000, 100), (300, 70, usize::MAX)] {
+                for (swarm, scrape, max_scrape) in [(0u16, 0u16, 0usize), (1, 1, 1), (5, 10_000, 100), (300, 70, usize::MAX), (3, 100, 100)] {
                     v.push(HandlerCase::Http { max_peers: max, numwant, left, port: 65535, swarm, scrape_hashes: scrape, max_scrape });
                 }
             }
         }
         for offers in [0u16, 1, 10, 10_000] {
             for left in [None, Some(0), Some(u64::MAX)] {
-                for (swarm, scrape, max_scrape) in [(0u16, 0u16, 0usize), (2, 1, 1), (5, 10_000, 255)] {
+                for (swarm, scrape, max_scrape) in [(0u16, 0u16, 0usize), (2, 1, 1), (5, 10_000, 255), (3, 255, 255), (3, 70, 10_000)] {
                     v.push(HandlerCase::Ws { max_offers: max, offers, left, swarm, scrape_hashes: scrape, max_scrape });
                 }
             }
